@@ -15,10 +15,15 @@ structure Disk where
   key : Content
   deriving Repr, DecidableEq
 
-/-- `tls.LoadX509KeyPair`: succeeds iff both halves are usable and belong together -/
+/-- which key a certificate file goes with: files `k` and `k + 100·j` hold the SAME leaf certificate and differ in the rest
+of the chain only (an intermediate added or re-issued), so they share the key of pair `k % 100` -/
+def keyOf (k : Nat) : Nat := k % 100
+
+/-- `tls.LoadX509KeyPair`: succeeds iff both halves are usable and belong together; what is loaded is the certificate
+FILE (leaf and chain) -/
 def load (d : Disk) : Option Nat :=
   match d.cert, d.key with
-  | .half a, .half b => if a = b then some a else none
+  | .half a, .half b => if keyOf a = keyOf b then some a else none
   | _, _ => none
 
 structure St where
